@@ -56,16 +56,17 @@ type evidence struct {
 
 // checkCtx carries what a property check accumulates.
 type checkCtx struct {
-	id       string
-	tier     string
-	seed     int64
-	rng      *rng
-	start    time.Time
-	findings []finding
-	cov      coverage
-	level    string
-	assume   []string
-	distinct map[string]bool
+	id        string
+	tier      string
+	seed      int64
+	rng       *rng
+	start     time.Time
+	findings  []finding
+	cov       coverage
+	level     string
+	assume    []string
+	distinct  map[string]bool
+	replaySig string // --replay: look only for this finding, write no evidence
 }
 
 func (c *checkCtx) thorough() bool { return c.tier == "thorough" }
@@ -104,6 +105,17 @@ func loadKnown() []knownEntry {
 // finish prints the verdict lines, writes replays and evidence, and returns
 // the process exit code.
 func (c *checkCtx) finish() int {
+	if c.replaySig != "" {
+		for _, f := range c.findings {
+			if f.Signature == c.replaySig {
+				fmt.Printf("VIOLATION property=%s replay=%s (reproduced: %s)\n", c.id, "seed "+fmt.Sprint(c.seed), f.Signature)
+				fmt.Fprintf(os.Stderr, "  %s: %s\n", f.Signature, f.Desc)
+				return 1
+			}
+		}
+		fmt.Printf("OK property=%s replay: the recorded finding %q does not occur on the current tree (seed %d, tier %s)\n", c.id, c.replaySig, c.seed, c.tier)
+		return 0
+	}
 	known := loadKnown()
 	violations := 0
 	seen := map[string]bool{}
